@@ -12,11 +12,15 @@ digest equality with the expected fingerprint, a ServerKeyExchange signature val
 certificate's key over this client's own random, key derivation from the share in that signed
 message, and a Finished that matched under those keys.  (That a valid signature over a fresh random
 proves possession of the private key, and that nobody without the ECDH secret can produce the
-matching verify_data, are ECDSA's / the PRF's security — `SigUnforgeable`, `VerifyDataBinding` —
-and are not assumed anywhere: the statements stop at the facts the code checks.)
+matching verify_data, are ECDSA's / the PRF's security.  Neither is assumed in this file: the statements
+stop at the facts the code checks.  The binding of verify_data to its inputs is a `Prop` over `Crypto` in
+`Theorems/C11.lean` (`VdInjective`, with `AcceptedFinishedWasSent` and `MasterSecretDeterminesKeys`), where
+it is a hypothesis of the agreement theorem and shown satisfiable; unforgeability of ECDSA signatures is not
+formalised at all.)
 -/
 import RtcModel.Lemmas.DtlsAuth
 import RtcModel.Lemmas.Fingerprint
+import RtcModel.Lemmas.DtlsTerm
 
 namespace RtcModel.Theorems.C02
 open RtcModel.Generated RtcModel.DtlsRecord RtcModel.DtlsHs
@@ -27,29 +31,35 @@ structure BaseInv (C : Crypto) (L : Loc) (v : View) : Prop where
   keysEv : ∀ pub pk cr sr ems tr k, Ev.keys pub pk cr sr ems tr k ∈ v.evs →
     pub = L.pub ∧ C.derive L.pub pk cr sr ems tr = some k
   keys : ∀ k, v.keys = some k → ∃ pk cr sr ems tr, Ev.keys L.pub pk cr sr ems tr k ∈ v.evs
-  fins : ∀ k tr, Ev.finished k tr ∈ v.evs → v.keys = some k
-  conn : v.conn = .connected → ∃ k tr, v.connKeys = some k ∧ Ev.finished k tr ∈ v.evs
+  /-- an accepted Finished: the keys are the endpoint's keys and the verify_data that arrived equals the
+  value computed from their master secret, the peer's label and the transcript -/
+  fins : ∀ k tr body, Ev.finished k tr body ∈ v.evs → v.keys = some k ∧ body = C.vd k.ms (!v.isClient) tr
+  /-- an emitted Finished carries verify_data computed from the endpoint's keys -/
+  sents : ∀ k tr body, Ev.sentFinished k tr body ∈ v.evs → v.keys = some k ∧ ∃ label, body = C.vd k.ms label tr
+  conn : v.conn = .connected → ∃ k tr body, v.connKeys = some k ∧ Ev.finished k tr body ∈ v.evs
 
 theorem BaseInv.step {C : Crypto} {L : Loc} {a b : View} (h : BaseInv C L a) (s : VStep C L a b) : BaseInv C L b := by
-  obtain ⟨h1, h2, h3, h4⟩ := h
+  obtain ⟨h1, h2, h3, h5, h4⟩ := h
   cases s with
-  | conn c hc => exact ⟨h1, h2, h3, fun hh => absurd hh hc⟩
+  | conn c hc => exact ⟨h1, h2, h3, h5, fun hh => absurd hh hc⟩
   | cert leaf hfp hpk =>
-    refine ⟨?_, ?_, ?_, ?_⟩
+    refine ⟨?_, ?_, ?_, ?_, ?_⟩
     · intro pub pk cr sr ems tr k hm; simp at hm; exact h1 _ _ _ _ _ _ _ hm
     · intro k hk; obtain ⟨pk, cr, sr, ems, tr, hm⟩ := h2 k hk; exact ⟨pk, cr, sr, ems, tr, by simp [hm]⟩
-    · intro k tr hm; simp at hm; exact h3 k tr hm
-    · intro hc; obtain ⟨k, tr, hk, hm⟩ := h4 hc; exact ⟨k, tr, hk, by simp [hm]⟩
+    · intro k tr body hm; simp at hm; exact h3 k tr body hm
+    · intro k tr body hm; simp at hm; exact h5 k tr body hm
+    · intro hc; obtain ⟨k, tr, body, hk, hm⟩ := h4 hc; exact ⟨k, tr, body, hk, by simp [hm]⟩
   | ske leaf cr sr body share hc hcert hcr hdec hsig =>
-    refine ⟨?_, ?_, ?_, ?_⟩
+    refine ⟨?_, ?_, ?_, ?_, ?_⟩
     · intro pub pk cr sr ems tr k hm; simp at hm; exact h1 _ _ _ _ _ _ _ hm
     · intro k hk; obtain ⟨pk, cr, sr, ems, tr, hm⟩ := h2 k hk; exact ⟨pk, cr, sr, ems, tr, by simp [hm]⟩
-    · intro k tr hm; simp at hm; exact h3 k tr hm
-    · intro hc; obtain ⟨k, tr, hk, hm⟩ := h4 hc; exact ⟨k, tr, hk, by simp [hm]⟩
-  | peerPub pk hs => exact ⟨h1, h2, h3, h4⟩
-  | clientRandom cr hs => exact ⟨h1, h2, h3, h4⟩
+    · intro k tr body hm; simp at hm; exact h3 k tr body hm
+    · intro k tr body hm; simp at hm; exact h5 k tr body hm
+    · intro hc; obtain ⟨k, tr, body, hk, hm⟩ := h4 hc; exact ⟨k, tr, body, hk, by simp [hm]⟩
+  | peerPub pk hs => exact ⟨h1, h2, h3, h5, h4⟩
+  | clientRandom cr hs => exact ⟨h1, h2, h3, h5, h4⟩
   | keys pk cr sr tr ems k hnone hver hpk hcr hd =>
-    refine ⟨?_, ?_, ?_, ?_⟩
+    refine ⟨?_, ?_, ?_, ?_, ?_⟩
     · intro pub pk' cr' sr' ems' tr' k' hm
       simp at hm
       rcases hm with ⟨rfl, rfl, rfl, rfl, rfl, rfl, rfl⟩ | hm
@@ -59,28 +69,39 @@ theorem BaseInv.step {C : Crypto} {L : Loc} {a b : View} (h : BaseInv C L a) (s 
       simp at hk'
       subst hk'
       exact ⟨pk, cr, sr, ems, tr, by simp⟩
-    · intro k' tr' hm
+    · intro k' tr' body' hm
       simp at hm
-      have := h3 k' tr' hm
+      have := (h3 k' tr' body' hm).1
       rw [hnone] at this
       cases this
-    · intro hc; obtain ⟨k', tr', hk', hm⟩ := h4 hc; exact ⟨k', tr', hk', by simp [hm]⟩
-  | connect k tr hk =>
-    refine ⟨?_, ?_, ?_, ?_⟩
-    · intro pub pk cr sr ems tr k hm; simp at hm; exact h1 _ _ _ _ _ _ _ hm
-    · intro k' hk'; obtain ⟨pk, cr, sr, ems, tr, hm⟩ := h2 k' hk'; exact ⟨pk, cr, sr, ems, tr, by simp [hm]⟩
-    · intro k' tr' hm
+    · intro k' tr' body' hm
       simp at hm
-      rcases hm with ⟨rfl, rfl⟩ | hm
-      · exact hk
-      · exact h3 k' tr' hm
-    · intro _; exact ⟨k, tr, rfl, by simp⟩
-  | sent k tr hk =>
-    refine ⟨?_, ?_, ?_, ?_⟩
+      have := (h5 k' tr' body' hm).1
+      rw [hnone] at this
+      cases this
+    · intro hc; obtain ⟨k', tr', body', hk', hm⟩ := h4 hc; exact ⟨k', tr', body', hk', by simp [hm]⟩
+  | connect k tr body hk hvd =>
+    refine ⟨?_, ?_, ?_, ?_, ?_⟩
     · intro pub pk cr sr ems tr k hm; simp at hm; exact h1 _ _ _ _ _ _ _ hm
     · intro k' hk'; obtain ⟨pk, cr, sr, ems, tr, hm⟩ := h2 k' hk'; exact ⟨pk, cr, sr, ems, tr, by simp [hm]⟩
-    · intro k' tr' hm; simp at hm; exact h3 k' tr' hm
-    · intro hc; obtain ⟨k', tr', hk', hm⟩ := h4 hc; exact ⟨k', tr', hk', by simp [hm]⟩
+    · intro k' tr' body' hm
+      simp at hm
+      rcases hm with ⟨rfl, rfl, rfl⟩ | hm
+      · exact ⟨hk, hvd⟩
+      · exact h3 k' tr' body' hm
+    · intro k' tr' body' hm; simp at hm; exact h5 k' tr' body' hm
+    · intro _; exact ⟨k, tr, body, rfl, by simp⟩
+  | sent k tr body label hk hvd =>
+    refine ⟨?_, ?_, ?_, ?_, ?_⟩
+    · intro pub pk cr sr ems tr k hm; simp at hm; exact h1 _ _ _ _ _ _ _ hm
+    · intro k' hk'; obtain ⟨pk, cr, sr, ems, tr, hm⟩ := h2 k' hk'; exact ⟨pk, cr, sr, ems, tr, by simp [hm]⟩
+    · intro k' tr' body' hm; simp at hm; exact h3 k' tr' body' hm
+    · intro k' tr' body' hm
+      simp at hm
+      rcases hm with ⟨rfl, rfl, rfl⟩ | hm
+      · exact ⟨hk, label, hvd⟩
+      · exact h5 k' tr' body' hm
+    · intro hc; obtain ⟨k', tr', body', hk', hm⟩ := h4 hc; exact ⟨k', tr', body', hk', by simp [hm]⟩
 
 theorem BaseInv.steps {C : Crypto} {L : Loc} {a b : View} (h : BaseInv C L a) (s : VSteps C L a b) : BaseInv C L b := by
   induction s with
@@ -174,7 +195,7 @@ theorem ClientInv.step {C : Crypto} {L : Loc} {f : Bytes} {a b : View} (h : Clie
       · exact ⟨rfl, leaf, sr0, body, by simp [x], y⟩
       · obtain ⟨a1, l, s0, b0, a2, a3⟩ := h8 _ _ _ _ _ _ _ hm
         exact ⟨a1, l, s0, b0, by simp [a2], a3⟩
-  | connect k tr hk =>
+  | connect k tr fbody hk hvd =>
     refine ⟨h1, h2, h3, ?_, ?_, ?_, ?_, ?_⟩
     · intro l hm; simp at hm; exact h4 l hm
     · intro l hl; simp [h5 l hl]
@@ -189,7 +210,7 @@ theorem ClientInv.step {C : Crypto} {L : Loc} {f : Bytes} {a b : View} (h : Clie
       simp at hm
       obtain ⟨a1, l, s0, b0, a2, a3⟩ := h8 _ _ _ _ _ _ _ hm
       exact ⟨a1, l, s0, b0, by simp [a2], a3⟩
-  | sent k tr hk =>
+  | sent k tr fbody label hk hvd =>
     refine ⟨h1, h2, h3, ?_, ?_, ?_, ?_, ?_⟩
     · intro l hm; simp at hm; exact h4 l hm
     · intro l hl; simp [h5 l hl]
@@ -214,7 +235,7 @@ theorem ClientInv.steps {C : Crypto} {L : Loc} {f : Bytes} {a b : View} (h : Cli
 theorem start_base (C : Crypto) (L : Loc) (isClient : Bool) (fp : Option Bytes) :
     BaseInv C L (view (start L isClient fp).1) := by
   unfold start
-  split <;> exact ⟨by simp [view], by simp [view, emitMsg, hsRecord], by simp [view], by simp [view]⟩
+  split <;> exact ⟨by simp [view], by simp [view, emitMsg, hsRecord], by simp [view], by simp [view], by simp [view]⟩
 
 theorem start_client (C : Crypto) (L : Loc) (f : Bytes) : ClientInv C L f (view (start L true (some f)).1) := by
   unfold start
@@ -233,30 +254,39 @@ if it is Connected then in that same handshake (ghost events of this endpoint)
   client's own random, the server random then in force and the key-exchange parameters,
 * the session keys were derived from this client's ECDH share and the share inside that signed
   message, and
-* a Finished arrived (in a record protected under those keys) whose verify_data matched the value
-  computed from those keys' master secret — and these are the keys published in `Connected`. -/
+* a Finished arrived whose verify_data `vdata` **equals** `C.vd k.ms false tr'` — the value computed from
+  those keys' master secret, the label "server finished" and the client's transcript — and these are the
+  keys published in `Connected`.  (That the record carrying it was protected follows from
+  `connect_needs_protected_record` below.)
+
+Not claimed: the server random `sr` covered by the signature and the one (`sr'`) used in the key
+derivation may differ — a second ServerHello accepted after the ServerKeyExchange overwrites
+`server_random` (the code has no "already set" guard); such a handshake can only complete if the
+Finished check passes for keys derived with `sr'`. -/
 theorem client_auth (C : Crypto) (L : Loc) (f : Bytes) (ops : List Op)
     (hc : (after C L true (some f) ops).conn = .connected) :
-    ∃ leaf sr body share sr' ems tr k tr',
+    ∃ leaf sr body share sr' ems tr k tr' vdata,
       Ev.cert leaf ∈ (after C L true (some f) ops).evs ∧ C.digest leaf = f ∧ C.pkOk leaf = true ∧
       Ev.ske leaf L.clientRandom sr body ∈ (after C L true (some f) ops).evs ∧
       C.sigOk leaf L.clientRandom sr body = true ∧ C.skeDecode body = some share ∧
       Ev.keys L.pub share L.clientRandom sr' ems tr k ∈ (after C L true (some f) ops).evs ∧
       C.derive L.pub share L.clientRandom sr' ems tr = some k ∧
-      Ev.finished k tr' ∈ (after C L true (some f) ops).evs ∧
+      Ev.finished k tr' vdata ∈ (after C L true (some f) ops).evs ∧ vdata = C.vd k.ms false tr' ∧
       (after C L true (some f) ops).connKeys = some k := by
   have hs := runOps_vstep C L ops (start L true (some f)).1
   have hb := (start_base C L true (some f)).steps hs
   have hcl := (start_client C L f).steps hs
-  obtain ⟨k, tr', hck, hfin⟩ := hb.conn hc
-  have hkeys := hb.fins k tr' hfin
+  obtain ⟨k, tr', vdata, hck, hfin⟩ := hb.conn hc
+  obtain ⟨hkeys, hvd⟩ := hb.fins k tr' vdata hfin
+  have hrole : (view (runOps C L (start L true (some f)).1 ops).1).isClient = true := hcl.role
+  rw [hrole] at hvd
   obtain ⟨pk, cr, sr', ems, tr, hkev⟩ := hb.keys k hkeys
   obtain ⟨_, hder⟩ := hb.keysEv _ _ _ _ _ _ _ hkev
   obtain ⟨hcr, leaf, sr, body, hske, hdec⟩ := hcl.keyChain _ _ _ _ _ _ _ hkev
   subst hcr
   obtain ⟨hcert, hsig, _⟩ := hcl.skes _ _ _ _ hske
   obtain ⟨hdig, hpk⟩ := hcl.certs _ hcert
-  exact ⟨leaf, sr, body, pk, sr', ems, tr, k, tr', hcert, hdig, hpk, hske, hsig, hdec, hkev, hder, hfin, hck⟩
+  exact ⟨leaf, sr, body, pk, sr', ems, tr, k, tr', vdata, hcert, hdig, hpk, hske, hsig, hdec, hkev, hder, hfin, by simpa using hvd, hck⟩
 
 /-- The certificate the checks are about is the *first* one of the Certificate message (the leaf):
 `handle_certificate` records a checked certificate only for the head of the decoded list, and it is
@@ -280,83 +310,169 @@ theorem certificate_checked_is_first (C : Crypto) (e : Ep) (body : Bytes) (leaf 
         · exact Or.inr ⟨rest, hdec⟩
         · exact Or.inl h
 
-/-- Consequence in the form of the property text: a client whose history contains no certificate
-with the expected digest never reaches Connected (so it is Handshaking, Failed or Closed). -/
-theorem client_not_connected_without_matching_certificate (C : Crypto) (L : Loc) (f : Bytes) (ops : List Op)
-    (hno : ∀ leaf, Ev.cert leaf ∈ (after C L true (some f) ops).evs → C.digest leaf ≠ f) :
-    (after C L true (some f) ops).conn ≠ .connected := by
-  intro hc
-  obtain ⟨leaf, _, _, _, _, _, _, _, _, h1, h2, _⟩ := client_auth C L f ops hc
-  exact hno leaf h1 h2
-
 /-- **no keying material unless Connected**: `export_keying_material` answers only in state
-Connected, and then from the keys whose Finished check passed. -/
+Connected, and then from keys under which an arrived Finished matched (`vdata = C.vd …` for the peer's
+label and the endpoint's transcript). -/
 theorem export_only_when_connected (C : Crypto) (L : Loc) (isClient : Bool) (fp : Option Bytes) (ops : List Op) (k : Keys)
     (h : exporter (after C L isClient fp ops) = some k) :
-    (after C L isClient fp ops).conn = .connected ∧ ∃ tr, Ev.finished k tr ∈ (after C L isClient fp ops).evs := by
+    (after C L isClient fp ops).conn = .connected ∧
+    ∃ tr vdata, Ev.finished k tr vdata ∈ (after C L isClient fp ops).evs ∧
+      vdata = C.vd k.ms (!(after C L isClient fp ops).isClient) tr := by
   unfold exporter at h
   split at h
   · rename_i hc
     have hb := (start_base C L isClient fp).steps (runOps_vstep C L ops (start L isClient fp).1)
-    obtain ⟨k', tr, hk', hf⟩ := hb.conn hc
+    obtain ⟨k', tr, vdata, hk', hf⟩ := hb.conn hc
     have hk'' : (after C L isClient fp ops).connKeys = some k' := hk'
     rw [h] at hk''
     cases hk''
-    exact ⟨hc, tr, hf⟩
+    exact ⟨hc, tr, vdata, hf, (hb.fins k tr vdata hf).2⟩
   · cases h
 
-/-- **no application data unless the handshake completed**: whatever datagram arrives after any
-history, bytes are handed to the upper layer only if — at that moment — the endpoint is Connected,
-hence has verified a Finished in this handshake (and, for a client with an expected fingerprint,
-everything `client_auth` lists).  In particular a Handshaking, Failed or Closed endpoint accepts no
-application data. -/
-theorem app_data_only_after_finished (C : Crypto) (L : Loc) (isClient : Bool) (fp : Option Bytes) (ops : List Op)
+/-- **application data only while Connected**: whatever datagram arrives after any history, every
+payload handed to the upper layer is handed up at a moment — an intermediate state `e'` of processing
+that datagram, reached from the state before it and leading to the state after it — at which the
+connection state *is* `Connected`.  A Handshaking, Failed or Closed endpoint therefore accepts no
+application data unless the same datagram first completes the handshake (see
+`no_app_data_once_completed_and_not_connected` for why that cannot happen twice). -/
+theorem app_data_only_while_connected (C : Crypto) (L : Loc) (isClient : Bool) (fp : Option Bytes) (ops : List Op)
     (dec : DecFn) (bs p : Bytes)
     (h : Out.deliver p ∈ (onPacket dec C L (after C L isClient fp ops) bs).2) :
-    ∃ k tr, Ev.finished k tr ∈ (onPacket dec C L (after C L isClient fp ops) bs).1.evs := by
+    ∃ e', VSteps C L (view (after C L isClient fp ops)) (view e') ∧ e'.conn = .connected ∧
+      VSteps C L (view e') (view (onPacket dec C L (after C L isClient fp ops) bs).1) ∧
+      ∃ k tr vdata, Ev.finished k tr vdata ∈ e'.evs ∧ vdata = C.vd k.ms (!e'.isClient) tr := by
   have hb0 := (start_base C L isClient fp).steps (runOps_vstep C L ops (start L isClient fp).1)
   unfold onPacket at h ⊢
   split at h
   · simp at h
   · rename_i halive
-    simp only [halive, if_false]
+    simp only [halive]
     dsimp only at h ⊢
     have key : ∀ q, Out.deliver q ∈ (onDatagram dec C L (bs.length + 1) (after C L isClient fp ops) bs).out →
-        ∃ k tr, Ev.finished k tr ∈ (onDatagram dec C L (bs.length + 1) (after C L isClient fp ops) bs).ep.evs := by
+        ∃ e', VSteps C L (view (after C L isClient fp ops)) (view e') ∧ e'.conn = .connected ∧
+          VSteps C L (view e') (view (onDatagram dec C L (bs.length + 1) (after C L isClient fp ops) bs).ep) ∧
+          ∃ k tr vdata, Ev.finished k tr vdata ∈ e'.evs ∧ vdata = C.vd k.ms (!e'.isClient) tr := by
       intro q hq
       obtain ⟨e', h1, h2, h3⟩ := onDatagram_deliver_mid dec C L _ _ bs q hq
-      obtain ⟨k, tr, _, hf⟩ := (hb0.steps h1).conn h3
-      exact ⟨k, tr, h2.evs_mono _ hf⟩
+      have hb' := hb0.steps h1
+      obtain ⟨k, tr, vdata, _, hf⟩ := hb'.conn h3
+      exact ⟨e', h1, h3, h2, k, tr, vdata, hf, (hb'.fins k tr vdata hf).2⟩
     split at h
     · rename_i hc
       simp only [hc, if_true]
-      exact key p h
+      obtain ⟨e', a1, a2, a3, a4⟩ := key p h
+      exact ⟨e', a1, a2, a3, a4⟩
     · rename_i hc
       simp only [hc]
       exact key p h
 
-/-- … stated for the states the property names: while not Connected (and not becoming so within the
-datagram, i.e. no Finished gets verified), nothing is delivered. -/
-theorem no_app_data_without_finished (C : Crypto) (L : Loc) (isClient : Bool) (fp : Option Bytes) (ops : List Op)
-    (dec : DecFn) (bs : Bytes)
-    (hno : ∀ k tr, Ev.finished k tr ∉ (onPacket dec C L (after C L isClient fp ops) bs).1.evs) :
-    ∀ p, Out.deliver p ∉ (onPacket dec C L (after C L isClient fp ops) bs).2 := by
-  intro p hp
-  obtain ⟨k, tr, h⟩ := app_data_only_after_finished C L isClient fp ops dec bs p hp
-  exact hno k tr h
-
-/-- **server_auth, the part that holds**: a Connected server has verified a Finished under keys
-derived from its own ECDH share and *some* peer share — it talks to whoever sent that
-ClientKeyExchange; nothing ties that party to the expected fingerprint (see the witness below). -/
+/-- **server_auth, the part that holds**: a Connected server has accepted a Finished whose verify_data
+equals the value for keys derived from its own ECDH share and *some* peer share — it talks to whoever
+sent that ClientKeyExchange; nothing ties that party to the expected fingerprint (see the witness). -/
 theorem server_auth_partial (C : Crypto) (L : Loc) (fp : Option Bytes) (ops : List Op)
     (hc : (after C L false fp ops).conn = .connected) :
-    ∃ k pk cr sr ems tr tr', (after C L false fp ops).connKeys = some k ∧
+    ∃ k pk cr sr ems tr tr' vdata, (after C L false fp ops).connKeys = some k ∧
       Ev.keys L.pub pk cr sr ems tr k ∈ (after C L false fp ops).evs ∧ C.derive L.pub pk cr sr ems tr = some k ∧
-      Ev.finished k tr' ∈ (after C L false fp ops).evs := by
+      Ev.finished k tr' vdata ∈ (after C L false fp ops).evs ∧
+      vdata = C.vd k.ms (!(after C L false fp ops).isClient) tr' := by
   have hb := (start_base C L false fp).steps (runOps_vstep C L ops (start L false fp).1)
-  obtain ⟨k, tr', hck, hfin⟩ := hb.conn hc
-  obtain ⟨pk, cr, sr, ems, tr, hkev⟩ := hb.keys k (hb.fins k tr' hfin)
-  exact ⟨k, pk, cr, sr, ems, tr, tr', hck, hkev, (hb.keysEv _ _ _ _ _ _ _ hkev).2, hfin⟩
+  obtain ⟨k, tr', vdata, hck, hfin⟩ := hb.conn hc
+  obtain ⟨hkeys, hvd⟩ := hb.fins k tr' vdata hfin
+  obtain ⟨pk, cr, sr, ems, tr, hkev⟩ := hb.keys k hkeys
+  exact ⟨k, pk, cr, sr, ems, tr, tr', vdata, hck, hkev, (hb.keysEv _ _ _ _ _ _ _ hkev).2, hfin, hvd⟩
+
+/-! ### "otherwise the transport ends in Failed" -/
+
+/-- A Certificate message whose leaf does not hash to the expected fingerprint fails the transport on
+the spot (state Failed, the handler returns `Err`) … -/
+theorem certificate_mismatch_fails (C : Crypto) (e : Ep) (body leaf f : Bytes) (rest : List Bytes)
+    (hexp : e.ctx.expectedFp = some f) (hdec : C.certDecode body = some (leaf :: rest)) (hne : C.digest leaf ≠ f) :
+    handleCertificate C e body = failed e := by
+  unfold handleCertificate
+  simp [hdec, hexp, fpMismatch, hne]
+
+/-- … as do a ServerKeyExchange whose signature does not verify under the accepted leaf, a
+ServerHelloDone without a verified key exchange, and a Finished whose verify_data differs. -/
+theorem bad_signature_fails (C : Crypto) (e : Ep) (body share leaf cr sr : Bytes) (hc : e.isClient = true)
+    (hdec : C.skeDecode body = some share) (hleaf : e.ctx.peerCert = some leaf) (hcr : e.ctx.clientRandom = some cr)
+    (hsr : e.ctx.serverRandom = some sr) (hbad : C.sigOk leaf cr sr body = false) :
+    handleServerKeyExchange C e body = failed e := by
+  unfold handleServerKeyExchange
+  simp [hc, hdec, hleaf, hcr, hsr, hbad]
+
+theorem bad_finished_fails_client (C : Crypto) (e : Ep) (body : Bytes) (k : Keys) (hk : e.ctx.keys = some k)
+    (hbad : body ≠ C.vd k.ms false e.ctx.transcript) : handleFinishedClient C e body = failed e := by
+  unfold handleFinishedClient
+  simp [hk, hbad]
+
+/-- **Failed is final, for every history**: an endpoint in state Failed has no running loop
+(`alive = false`); it processes nothing further, hands nothing up and sends nothing on ticks. -/
+theorem failed_is_dead (C : Crypto) (L : Loc) (isClient : Bool) (fp : Option Bytes) (ops : List Op) :
+    (after C L isClient fp ops).conn = .failed → (after C L isClient fp ops).alive = false := by
+  unfold after
+  have h0 : (start L isClient fp).1.conn = .failed → (start L isClient fp).1.alive = false := by
+    unfold start; split <;> simp
+  generalize (start L isClient fp).1 = e at h0
+  induction ops generalizing e with
+  | nil => exact h0
+  | cons o os ih =>
+    simp only [runOps]
+    apply ih
+    cases o with
+    | packet dec bs =>
+      simp only [stepOp, onPacket]
+      split
+      · exact h0
+      · rename_i ha
+        have ht := onDatagram_term dec C L (bs.length + 1) e bs
+        split
+        · intro _; rfl
+        · rename_i hcond
+          intro hf
+          have hne : e.conn ≠ .failed := by
+            intro hh; have := h0 hh; simp [this] at ha
+          have herr := ht.failing hne hf
+          simp [herr] at hcond
+          exact absurd hf hcond
+    | send d => simp only [stepOp, onSend]; split <;> simpa using h0
+    | close =>
+      simp only [stepOp, onClose]
+      split
+      · exact h0
+      · split
+        · intro _; rfl
+        · split <;> (intro _; rfl)
+    | tick => exact h0
+    | deadline => simp only [stepOp, onDeadline]; split <;> simp_all
+
+theorem dead_endpoint_is_inert (A : DecFn) (C : Crypto) (L : Loc) (e : Ep) (bs : Bytes) (h : e.alive = false) :
+    onPacket A C L e bs = (e, []) ∧ onTick e = [] := by
+  simp [onPacket, onTick, h]
+
+/-- the handshake deadline ends a handshake that is still running: after it no live endpoint is
+Handshaking (a stuck handshake — lost messages, ignored out-of-order ones, a peer that never answers —
+ends in Failed, with the loop stopped) -/
+theorem deadline_ends_handshake (C : Crypto) (L : Loc) (e : Ep) (h : e.alive = true) (hh : e.conn = .handshaking) :
+    (stepOp C L e .deadline).1.conn = .failed ∧ (stepOp C L e .deadline).1.alive = false := by
+  simp [stepOp, onDeadline, h, hh]
+
+/-- **once the handshake has completed, an endpoint that is no longer Connected (Closed by an
+authenticated close_notify, Failed) never hands application data up again** — whatever arrives. -/
+theorem no_app_data_once_completed_and_not_connected (A : DecFn) (C : Crypto) (L : Loc) (e : Ep) (bs : Bytes)
+    (hw : e.writeEpoch ≠ 0) (hc : e.conn ≠ .connected) : ∀ p, Out.deliver p ∉ (onPacket A C L e bs).2 := by
+  intro p h
+  unfold onPacket at h
+  split at h
+  · simp at h
+  · dsimp only at h
+    split at h <;> exact onDatagram_no_delivery_after_completion A C L _ e bs hw hc p h
+
+/-- **Connected is only ever reached through a protected record**: a handshake message that arrived in
+clear text (anybody can send one) never turns a not-Connected endpoint into a Connected one — before
+keys exist because the Finished handlers connect only with keys, afterwards because the gate skips it. -/
+theorem connect_needs_protected_record (C : Crypto) (L : Loc) (e : Ep) (m : HsMsg)
+    (h : (procMsg C L e false m).ep.conn = .connected) : e.conn = .connected :=
+  unauthenticated_message_never_connects C L e m h
 
 /-! ### server role: the full statement fails -/
 
@@ -440,8 +556,8 @@ theorem server_checks_certificate_if_presented (C : Crypto) (L : Loc) (f : Bytes
     | peerPub pk hs' => exact ⟨hf, hc⟩
     | clientRandom cr hs' => exact ⟨hf, hc⟩
     | keys pk cr sr tr ems k a1 a2 a3 a4 a5 => exact ⟨hf, by intro l hm; simp at hm; exact hc l hm⟩
-    | connect k tr hk => exact ⟨hf, by intro l hm; simp at hm; exact hc l hm⟩
-    | sent k tr hk => exact ⟨hf, by intro l hm; simp at hm; exact hc l hm⟩
+    | connect k tr fb hk hvd => exact ⟨hf, by intro l hm; simp at hm; exact hc l hm⟩
+    | sent k tr fb lb hk hvd => exact ⟨hf, by intro l hm; simp at hm; exact hc l hm⟩
 
 /-! ### non-vacuity: the client really can connect (so `client_auth` is not vacuous) -/
 
